@@ -52,7 +52,11 @@ func (p *parser) Advance(sym string) *token {
 }
 
 func (p *parser) Statement() *token {
-	tok := p.Expression(0)
+	return asStatement(p.Expression(0))
+}
+
+// asStatement applies the statement rule: a bare call requests zero results.
+func asStatement(tok *token) *token {
 	if tok == nil {
 		return nil
 	}
